@@ -243,7 +243,7 @@ fn apply_real(bin: &Path, dir: &Path, sc: &Scenario, op: &Op) -> Option<RealRun>
         Op::RmCache => { let _ = fs::remove_dir_all(dir.join(CACHE_DIR)); None },
         Op::RmTable => { let _ = fs::remove_file(dir.join(TABLE_FILE)); None },
         Op::Rules { k } => { write_file(dir, RULES_FILE, render_rules(&sc.variants[*k]).as_bytes()); None },
-        Op::Backdate { .. } => None,
+        Op::Backdate { .. } | Op::CorruptHistory { .. } | Op::CorruptTable => None,
         Op::Build { goal } =>
         {
             let mut args = vec!["build"];
